@@ -37,8 +37,9 @@ def run_case(c):
     elif k == "poly":
         x, y = txt(c["x"]["root"]) + c["x"]["sh"], txt(c["y"]["root"]) + c["y"]["sh"]
         R.append(call("poly", {"x": c["x"], "y": c["y"]},
-                      lambda: {"x": chords.from_shorthand(x), "y": chords.from_shorthand(y), "xy": chords.from_shorthand(x + "|" + y)},
-                      lambda o: {"x": names(o["x"]), "y": names(o["y"]), "xy": names(o["xy"])}))
+                      lambda: {"x": chords.from_shorthand(x), "y": chords.from_shorthand(y), "xy": chords.from_shorthand(x + "|" + y),
+                               "xyx": chords.from_shorthand(x + "|" + y + "|" + x)},
+                      lambda o: {"x": names(o["x"]), "y": names(o["y"]), "xy": names(o["xy"]), "xyx": names(o["xyx"])}))
     elif k == "malformed":
         s = txt(c["root"]) + c["suffix"]
         R.append(call("malformed", {"s": list(s)}, lambda: chords.from_shorthand(s), names))
